@@ -67,24 +67,27 @@ type Stats struct {
 	Removes      int
 	Reads        int
 	FaultsFired  map[string]int
-	MaxWriters   int // max simultaneously open write handles on one file
+	FiredSeqs    []int // sequence numbers of the operations that were failed
+	MaxWriters   int   // max simultaneously open write handles on one file
 	BytesWritten int64
 }
 
 // Disk is one incarnation's file system.
 type Disk struct {
-	mu      sync.Mutex
-	root    *node
-	nextIno int
-	base    *node // deep copy of root when logging started
-	baseIno int
-	logging bool
-	log     []LogOp
-	faults  map[int]Fault // keyed by mutating-op sequence number (0-based, counted in Stats.Ops)
-	fullAt  int           // if >0: every write from op fullAt to fullEnd fails with ENOSPC
-	fullEnd int
-	st      Stats
-	Env     map[string]string
+	mu            sync.Mutex
+	root          *node
+	nextIno       int
+	base          *node // deep copy of root when logging started
+	baseIno       int
+	logging       bool
+	log           []LogOp
+	faults        map[int]Fault // keyed by mutating-op sequence number (0-based, counted in Stats.Ops)
+	fullAt        int           // if >0: every write from op fullAt to fullEnd fails with ENOSPC
+	fullEnd       int
+	st            Stats
+	lastFaultKind int
+	lastFaultPath string
+	Env           map[string]string
 	// OnOp, if set, is called (with the disk lock held) before each mutating op
 	// with its sequence number and kind; used by harnesses to map ops to phases.
 	OnOp func(seq int, kind int, p string)
@@ -145,7 +148,15 @@ func (d *Disk) Stats() Stats {
 	for k, v := range d.st.FaultsFired {
 		s.FaultsFired[k] = v
 	}
+	s.FiredSeqs = append([]int(nil), d.st.FiredSeqs...)
 	return s
+}
+
+// LastFault describes the most recent failed operation.
+func (d *Disk) LastFault() (kind int, path string) {
+	d.mu.Lock()
+	defer d.mu.Unlock()
+	return d.lastFaultKind, d.lastFaultPath
 }
 
 // OpCount returns the number of mutating operations issued so far.
@@ -379,10 +390,14 @@ func (d *Disk) begin(kind int, p string) (Fault, bool) {
 	}
 	if f, ok := d.faults[seq]; ok {
 		d.st.FaultsFired[opNames[kind]+":"+f.Errno.Error()]++
+		d.st.FiredSeqs = append(d.st.FiredSeqs, seq)
+		d.lastFaultKind, d.lastFaultPath = kind, p
 		return f, true
 	}
 	if d.fullEnd > d.fullAt && seq >= d.fullAt && seq < d.fullEnd && (kind == OpWrite || kind == OpCreate || kind == OpMkdir) {
 		d.st.FaultsFired[opNames[kind]+":full"]++
+		d.st.FiredSeqs = append(d.st.FiredSeqs, seq)
+		d.lastFaultKind, d.lastFaultPath = kind, p
 		return Fault{Errno: syscall.ENOSPC, Short: -1}, true
 	}
 	return Fault{}, false
